@@ -214,7 +214,7 @@ fn run_api(api: u8, a: BigInt, b: BigInt) -> (Option<BigInt>, Option<BigInt>) {
 macro_rules! conv_shape {
     ($name:ident, $api:expr, $na:expr, $la:expr, $nb:expr, $lb:expr, $stub:ident) => {
         #[kani::proof]
-        #[kani::unwind(8)]
+        #[kani::unwind(34)]
         #[kani::stub(crate::biguint::division::div_rem_ref, $stub)]
         #[kani::stub(core::arch::x86_64::_addcarry_u64, vc::stub_addcarry)]
         #[kani::stub(core::arch::x86_64::_subborrow_u64, vc::stub_subborrow)]
@@ -256,7 +256,7 @@ macro_rules! conv_shape {
 macro_rules! zero_div_mp {
     ($name:ident, $api:expr, $na:expr, $la:expr) => {
         #[kani::proof]
-        #[kani::unwind(8)]
+        #[kani::unwind(34)]
         fn $name() {
             let a0: [u64; $la] = vc::any_canon::<$la>();
             let a = mkint($na, &a0);
@@ -269,7 +269,7 @@ macro_rules! zero_div_mp {
 macro_rules! zero_div_checked {
     ($name:ident, $na:expr, $la:expr) => {
         #[kani::proof]
-        #[kani::unwind(8)]
+        #[kani::unwind(34)]
         fn $name() {
             let a0: [u64; $la] = vc::any_canon::<$la>();
             let a = mkint($na, &a0);
